@@ -144,6 +144,60 @@ def run(ctx):
                                'zero bytes / of \'1\' characters - gets one answer, so leading zeros are not mapped one-for-one and '
                                'the coder is not invertible' % (fn, repr(leaf[1]), ' and '.join(T.show(c, maxdepth=3) for c in cs) or 'always'),
                                fi_.where)
+    # "leading zero bytes map one-for-one to leading '1' characters": the run that is written as repeated '1' / zero bytes
+    # must be able to grow with the input - a repetition count that is bounded by a constant whatever the input (a truth
+    # value, `len(x) - len(x.removeprefix(p))`: removeprefix strips ONE occurrence) maps longer runs onto shorter ones
+    def _bound(c, depth=0):
+        if depth > 12:
+            return None
+        if T.is_const(c) and isinstance(c[1], (int, bool)):
+            return int(c[1])
+        if T.type_of(c) == 'bool':
+            return 1
+        if T.tag(c) == 'phi':
+            a_, b_ = _bound(c[2], depth + 1), _bound(c[3], depth + 1)
+            if T.tag(c[2]) == 'raise':
+                return b_
+            if T.tag(c[3]) == 'raise':
+                return a_
+            return None if a_ is None or b_ is None else max(a_, b_)
+        # len(x) - len(x.removeprefix(p))  /  len(x) - len(x.removesuffix(p))
+        parts = list(c[2:]) if T.is_op(c, 'ADD') else None
+        if parts and len(parts) == 2:
+            for u, w in ((parts[0], parts[1]), (parts[1], parts[0])):
+                if T.is_op(u, 'LEN') and T.is_op(w, 'MUL') and T.const(-1) in w[2:]:
+                    inner = [z for z in w[2:] if z != T.const(-1)]
+                    if len(inner) == 1 and T.is_op(inner[0], 'LEN') and T.is_op(inner[0][2]) and inner[0][2][1] in ('REMOVEPREFIX', 'REMOVESUFFIX') \
+                            and inner[0][2][2] == u[2]:
+                        pl = T.length_of(inner[0][2][3])
+                        return pl
+        if T.is_op(c, 'SUB') and T.is_op(c[2], 'LEN') and T.is_op(c[3], 'LEN') and T.is_op(c[3][2]) \
+                and c[3][2][1] in ('REMOVEPREFIX', 'REMOVESUFFIX') and c[3][2][2] == c[2][2]:
+            return T.length_of(c[3][2][3])
+        return None
+    for fn in ('encode_base58', 'decode_base58'):
+        fi_ = p.get_function('helper.' + fn)
+        with ctx.obligation('C10.RUN', 'helper.' + fn, None, fi_.where) as ob:
+            _f, recs, _sig = _rc.describe(p, 'helper', fn, 'ecdsa', shared=(), param_types=_rc.param_types_of(fi_))
+            reps = []
+
+            def collect(x):
+                if isinstance(x, dict):
+                    x = tuple(x.values())
+                if isinstance(x, (tuple, list)):
+                    if T.is_op(x, 'REPB') and T.is_const(x[2]) and x[2][1] in ('1', b'\x00'):
+                        reps.append(x)
+                    for y in x:
+                        collect(y)
+            collect(recs)
+            ob.evaluations += 1
+            for r in reps:
+                bnd = _bound(r[3])
+                ob.require(bnd is None, '%s writes the run of %s with a repetition count that never exceeds %s, whatever the input: '
+                           'longer runs of leading zero bytes / \'1\' characters are not mapped one-for-one' % (fn, repr(r[2][1]), bnd),
+                           fi_.where, found=T.show(r[3], maxdepth=5))
+            if not reps:
+                ob.note('%s: no repeated %s found in its value terms (run written another way)' % (fn, "'1' / zero byte"))
     with ctx.obligation('C10.ALPHA', 'helper.BASE58_ALPHABET', None, 'btc_hd_wallet/helper.py') as ob:
         ev = Evaluator(p, 'ecdsa')
         a = ev.module_const('helper', 'BASE58_ALPHABET')
@@ -200,7 +254,8 @@ def run(ctx):
             if res is FALL:
                 lv = []
             else:
-                lv = [x for x in distinct_leaves(res)]
+                # alternatives the assumption excludes (the letters of a table look-up) do not count
+                lv = [x for _, x in leaves(res, (), set(facts))]
             falls = res is FALL or any(x is FALL or x == FALL for x in lv)
             uses_index = any(T.contains(v_, lambda x: T.is_op(x) and x[1] in ('INDEX', 'METHOD') and T.contains(x, lambda y: y == c))
                              for v_ in list(env2.values()) if v_ is not None)
